@@ -163,8 +163,6 @@ package server
 //@   ensures ret0 != nil && fresh(ret0)
 //@ func (*UserManager).RebuildNamespaceUsers
 //@   assigns mapof(u.users), mapof(u.userNamespaces)
-//@ func (*UserManager).ClearNamespaceUsers
-//@   assigns mapof(u.users), mapof(u.userNamespaces)
 //@ func NewSQLResponse
 //@   assigns \nothing
 //@ func (*Manager).clearBackendConnectPoolMetrics
@@ -443,3 +441,65 @@ package server
 //@   (*SessionExecutor).recycleBackendConns, (*Session).clearKsConns, (*SessionExecutor).handleKeepSessionPing
 //@ property C23: (*SessionExecutor).getBackendKsConn, (*SessionExecutor).getBackendConn, (*Session).clearKsConns, (*Session).shouldClearKsAndCloseSession,
 //@   (*Session).execCommand, (*SessionExecutor).handleKsQuit, (*SessionExecutor).handleKeepSessionPing
+
+// ---------------------------------------------------------------- C29 credentials map to exactly their namespace
+// The credential key of (user, password) is user + ":" + password; userOf / passOf are what getUserAndPasswordFromKey reads back
+// (strings.Split at ':', trusted). They invert the key for names and passwords without ':' (facts about strings.Split: axioms).
+//@ pure keyOf(u string, p string) string = u + ":" + p
+//@ pure userOf(key string) string
+//@ pure passOf(key string) string
+//@ pure noColon(s string) bool
+//@ trusted strings.Split
+//@   params s, sep
+//@   pure-call
+//@   ensures fresh(ret0) && len(ret0) >= 1 && (sep == ":" ==> ret0[0] == userOf(s) && (len(ret0) >= 2 ==> ret0[1] == passOf(s)))
+//@ axiom splitKey: forall(u string, forall(p string, noColon(u) ==> userOf(keyOf(u, p)) == u && (noColon(p) ==> passOf(keyOf(u, p)) == p)))
+//@ property C29: getUserKey, getUserAndPasswordFromKey, (*UserManager).CheckUser, (*UserManager).GetNamespaceByUser, (*UserManager).addNamespaceUsers, (*UserManager).ClearNamespaceUsers
+//@ func getUserKey
+//@   assigns \nothing
+//@   ensures ret0 == keyOf(username, password)
+//@ func getUserAndPasswordFromKey
+//@   may-panic when true
+//@   assigns \nothing
+//@   ensures ret0 == userOf(key) && ret1 == passOf(key)
+//@ func (*UserManager).CheckUser
+//@   requires u != nil
+//@   assigns \nothing
+//@   ensures ret0 <==> has(u.users, user)
+// the namespace of a credential pair is what was registered under its key (empty when nothing was)
+//@ func (*UserManager).GetNamespaceByUser
+//@   requires u != nil
+//@   assigns \nothing
+//@   ensures has(u.userNamespaces, keyOf(userName, password)) ==> ret0 == u.userNamespaces[keyOf(userName, password)]
+//@   ensures !has(u.userNamespaces, keyOf(userName, password)) ==> ret0 == ""
+// registering a namespace: each of its users' (name, password) keys maps to that namespace, the password is among the user's
+// passwords, and no other key or user changes
+//@ pure pwdArraysDistinct(u *UserManager) bool = forall(a string, forall(b string, has(u.users, a) && has(u.users, b) && a != b && u.users[a] != nil ==> !sameArray(u.users[a], u.users[b]))) && forall(a string, has(u.users, a) ==> allocated(u.users[a]))
+//@ func (*UserManager).addNamespaceUsers
+//@   requires u != nil && namespace != nil && u.users != nil && u.userNamespaces != nil && forall(k, 0, len(namespace.Users), namespace.Users[k] != nil) && pwdArraysDistinct(u)
+//@   assigns u.users, u.userNamespaces, elemsoftype(string)
+//@   loop 0 invariant case distinct: pwdArraysDistinct(u)
+//@   loop 0 invariant case keys:  forall(k, 0, rangeindex + 1, has(u.userNamespaces, keyOf(namespace.Users[k].UserName, namespace.Users[k].Password)) && u.userNamespaces[keyOf(namespace.Users[k].UserName, namespace.Users[k].Password)] == namespace.Name)
+//@   loop 0 invariant case pwds:  forall(k, 0, rangeindex + 1, has(u.users, namespace.Users[k].UserName) && mem(u.users[namespace.Users[k].UserName], namespace.Users[k].Password))
+//@   loop 0 invariant forall(key string, (forall(k, 0, rangeindex + 1, key != keyOf(namespace.Users[k].UserName, namespace.Users[k].Password))) ==> has(u.userNamespaces, key) == old(has(u.userNamespaces, key)) && u.userNamespaces[key] == old(u.userNamespaces[key]))
+//@   loop 0 invariant forall(name string, forall(p string, old(has(u.users, name)) && old(mem(u.users[name], p)) ==> has(u.users, name) && mem(u.users[name], p)))
+//@   loop 0 assigns u.users, u.userNamespaces, elemsoftype(string)
+//@   ensures case registered: forall(k, 0, len(namespace.Users), has(u.userNamespaces, keyOf(namespace.Users[k].UserName, namespace.Users[k].Password)) && u.userNamespaces[keyOf(namespace.Users[k].UserName, namespace.Users[k].Password)] == namespace.Name && has(u.users, namespace.Users[k].UserName) && mem(u.users[namespace.Users[k].UserName], namespace.Users[k].Password))
+//@   ensures case others: forall(key string, (forall(k, 0, len(namespace.Users), key != keyOf(namespace.Users[k].UserName, namespace.Users[k].Password))) ==> has(u.userNamespaces, key) == old(has(u.userNamespaces, key)) && u.userNamespaces[key] == old(u.userNamespaces[key]))
+//@   ensures case distinct: pwdArraysDistinct(u)
+//@   ensures case kept: forall(name string, forall(p string, old(has(u.users, name)) && old(mem(u.users[name], p)) ==> has(u.users, name) && mem(u.users[name], p)))
+// clearing a namespace: exactly its keys disappear, and a user loses exactly the passwords that some cleared key names
+// (userOf / passOf of the key) -- every other key, user and password is untouched
+//@ pure cleared(u *UserManager, ns string, name string, p string) bool = exists(key string, has(u.userNamespaces, key) && u.userNamespaces[key] == ns && userOf(key) == name && passOf(key) == p)
+//@ func (*UserManager).ClearNamespaceUsers
+//@   requires u != nil && u.users != nil && u.userNamespaces != nil
+//@   assigns mapof(u.users), mapof(u.userNamespaces)
+//@   may-panic when true
+//@   loop 0 invariant case keys: forall(key string, (has(u.userNamespaces, key) <==> old(has(u.userNamespaces, key)) && !(visited(key) && old(u.userNamespaces[key]) == namespace)) && (has(u.userNamespaces, key) ==> u.userNamespaces[key] == old(u.userNamespaces[key])))
+//@   loop 0 invariant case pwds: forall(name string, forall(p string, (has(u.users, name) && mem(u.users[name], p)) <==> (old(has(u.users, name) && mem(u.users[name], p)) && !exists(key string, visited(key) && old(has(u.userNamespaces, key)) && old(u.userNamespaces[key]) == namespace && userOf(key) == name && passOf(key) == p))))
+//@   loop 0 invariant case seen: forall(key string, visited(key) ==> old(has(u.userNamespaces, key)))
+//@   loop 0 assigns u.users, u.userNamespaces
+//@   loop 1 invariant newPasswords == nil || fresh(newPasswords)
+//@   loop 1 invariant forall(x string, mem(newPasswords, x) <==> (x != password && exists(j, 0, rangeindex + 1, passwords[j] == x)))
+//@   ensures case keys: forall(key string, (has(u.userNamespaces, key) <==> old(has(u.userNamespaces, key)) && old(u.userNamespaces[key]) != namespace) && (has(u.userNamespaces, key) ==> u.userNamespaces[key] == old(u.userNamespaces[key])))
+//@   ensures case pwds: forall(name string, forall(p string, (has(u.users, name) && mem(u.users[name], p)) <==> (old(has(u.users, name) && mem(u.users[name], p)) && !old(cleared(u, namespace, name, p)))))
